@@ -3,43 +3,43 @@ import json, os, sys
 VERIF = os.path.dirname(os.path.dirname(os.path.abspath(__file__)))
 
 CHECKS = {
- "C01": ("model_checking", "3.4", "TLC model of Manager.tla + replay of every generated transition on the real Manager (contents, definitions, knob state after each call)",
+ "C01": ("model_checking", "2", "TLC model of Manager.tla + replay of every generated transition on the real Manager (contents, definitions, knob state after each call)",
          "Manager.tla (history-free reference machine) is trusted; small universes (4-6 leaves), depth 2 exhaustive + simulated fans quick, depth 3 + 10 thorough"),
- "C02": ("model_checking", "3.4", "TLC model + replay observing the ordered Task.run calls: permutation of the spec's Triggered set and linear extension of Produces, under several hash seeds",
+ "C02": ("model_checking", "2", "TLC model + replay observing the ordered Task.run calls: permutation of the spec's Triggered set and linear extension of Produces, under several hash seeds",
          "order legality is judged by the spec's Produces relation emitted with each transition; structural-cycle steps are a recorded known finding"),
- "C03": ("model_checking", "3.4", "TLC model + replay comparing index supports, _expr/_tasks/_find_dependant_targets, verify() and a fresh manager with the spec's derived indices after every step",
+ "C03": ("model_checking", "2", "TLC model + replay comparing index supports, _expr/_tasks/_find_dependant_targets, verify() and a fresh manager with the spec's derived indices after every step",
          "supports only (not reference counts); derived indices are computed by the spec from the surviving definitions"),
- "C17": ("model_checking", "3.4", "TLC model with Freeze/Unfreeze + replay: refusals (ValueError, projection unchanged), propagation of plain values while frozen, history-free behaviour after unfreeze",
+ "C17": ("model_checking", "2", "TLC model with Freeze/Unfreeze + replay: refusals (ValueError, projection unchanged), propagation of plain values while frozen, history-free behaviour after unfreeze",
          "as C01; refresh on a frozen manager may either refuse or succeed as long as nothing observable changes"),
- "C18": ("fault_enumeration", "3.4", "TLC fault model (every crash position of every reachable update) + replay with fault-injecting containers",
+ "C18": ("fault_enumeration", "2", "TLC fault model (every crash position of every reachable update) + replay with fault-injecting containers",
          "faults are injected at the first write of the k-th scheduled task (and the initial write); multi-write partial failures of a LinearKnob are out of the enumerated positions"),
- "C11": ("model_checking", "4", "Manager.tla Transfer actions dumpload / copy_plain / copy_bind / copy_keep: the new manager's projection must equal the spec state and every later step on it must conform; plain and hostile keys",
+ "C11": ("model_checking", "2", "Manager.tla Transfer actions dumpload / copy_plain / copy_bind / copy_keep: the new manager's projection must equal the spec state and every later step on it must conform; plain and hostile keys",
          "expression-language part (every node class, literal catalogue) is decided by Expr.tla, see evidence; manager menus hold 14-21 expressions"),
- "C12": ("model_checking", "4", "Manager.tla Transfer actions pickle_copy / pickle_orig: pickle round trip as a stuttering step, behaviour continues on copy or original, the other side must not move",
+ "C12": ("model_checking", "2", "Manager.tla Transfer actions pickle_copy / pickle_orig: pickle round trip as a stuttering step, behaviour continues on copy or original, the other side must not move",
          "independence is checked by keeping the other side's projection and comparing it after every later step"),
- "C13": ("translation_validation", "4", "per-program validation of mk_fun/gen_fun output against Manager.tla's GenFun action (defined as sequential assignment; TLC asserts the batch formulation agrees)",
+ "C13": ("translation_validation", "2", "per-program validation of mk_fun/gen_fun output against Manager.tla's GenFun action (defined as sequential assignment; TLC asserts the batch formulation agrees)",
          "1- and 2-argument setters over undefined leaves at every reachable state; source text parsed line by line; structural-cycle orders are the recorded known finding"),
- "C20": ("exploration", "4", "the TLC-generated programs of Manager.tla executed under {compiled, pure Python} x PYTHONHASHSEED values; per-step transcripts (exception class, contents, dump() text) must be identical in every configuration, and each run must conform to the spec",
+ "C20": ("exploration", "2", "the TLC-generated programs of Manager.tla executed under {compiled, pure Python} x PYTHONHASHSEED values; per-step transcripts (exception class, contents, dump() text) must be identical in every configuration, and each run must conform to the spec",
          "quick: 2 builds x 3 seeds; thorough: 2 x 16 seeds and hostile keys; expression-term corpus is covered by the Expr engine's own cross-configuration digests"),
- "C04": ("model_checking", "5", "Expr.tla + PyVal.tla: TLC enumerates expression construction (all operators x operand orders x literal catalogue, builtins, calls, computed keys), assignment, the 13 in-place operators and operand changes; every transition replayed on real refs: structure, value by type, NaN / exception class vs the spec and vs CPython on the mirrored term",
+ "C04": ("model_checking", "3", "Expr.tla + PyVal.tla: TLC enumerates expression construction (all operators x operand orders x literal catalogue, builtins, calls, computed keys), assignment, the 13 in-place operators and operand changes; every transition replayed on real refs: structure, value by type, NaN / exception class vs the spec and vs CPython on the mirrored term",
          "exact window: ints, bools, small dyadic floats (PyVal.tla, cross-checked against CPython on every enumerated case); complex / numpy operands and inexact results are decided by CPython on the mirrored term, the structure by the spec"),
- "C05": ("model_checking", "5", "Expr.tla Locs: for every expression TLC builds (every node class x slot, refs directly or nested, bare container refs) _get_dependencies() must be a set projecting exactly onto Locs; model invariant Sensitive (a location whose change alters the value lies in Locs)",
+ "C05": ("model_checking", "3", "Expr.tla Locs: for every expression TLC builds (every node class x slot, refs directly or nested, bare container refs) _get_dependencies() must be a set projecting exactly onto Locs; model invariant Sensitive (a location whose change alters the value lies in Locs)",
          "construction depth 1 full, depth 2 reduced, deeper by simulation"),
- "C06": ("exploration", "5", "Paths.tla: all pairs of access paths of length <= 2 (3 thorough) over 9 abstract item keys x 3 attribute names x 2 labels under 4 hostile key tables: == / != / hash / dict lookup follow path identity; dictionary behaviours keyed by freshly built refs; then identical / different expression structures (Expr.tla)",
+ "C06": ("exploration", "4", "Paths.tla: all pairs of access paths of length <= 2 (3 thorough) over 9 abstract item keys x 3 attribute names x 2 labels under 4 hostile key tables: == / != / hash / dict lookup follow path identity; dictionary behaviours keyed by freshly built refs; then identical / different expression structures (Expr.tla)",
          "collision behaviour of large families only as: n similar keys give n distinct retrievable entries (10^4 quick, 10^5 thorough per family)"),
- "C14": ("model_checking", "6", "TableHeap.tla: heap of live tables under every derivation (rows / cols / cols[expr] / + / *k / concatenate / _copy / _t) and assignment; after every step ALL live tables are compared with the value-semantics specification (rectangular, column list, scalars, cells), so a derivation that damages its source is seen",
+ "C14": ("model_checking", "5", "TableHeap.tla: heap of live tables under every derivation (rows / cols / cols[expr] / + / *k / concatenate / _copy / _t) and assignment; after every step ALL live tables are compared with the value-semantics specification (rectangular, column list, scalars, cells), so a derivation that damages its source is seen",
          "roots of 0..3 rows, <= 3-5 live tables, depth 2-3 exhaustive + simulated depth 6-9; cells of columns that may share an in-place assigned array are Unknown; two dtype instantiations"),
- "C09": ("model_checking", "7", "Optimizer.tla trace specification: solve() calls recorded on real Optimize objects (TLC-enumerated call sequences x generated merit-function families x fault positions) must satisfy the named clauses: normal return => matched (independent re-evaluation), failure + restore_if_fail => iteration-0 knobs and flags",
+ "C09": ("model_checking", "6", "Optimizer.tla trace specification: solve() calls recorded on real Optimize objects (TLC-enumerated call sequences x generated merit-function families x fault positions) must satisfy the named clauses: normal return => matched (independent re-evaluation), failure + restore_if_fail => iteration-0 knobs and flags",
          "measurements (tolerances, penalties, ulp distances) come from a harness oracle; TLC decides the clauses on their integer abstractions; 150 problems quick / 1200 thorough"),
- "C10": ("model_checking", "7", "Optimizer.tla trace specification: every logged row within the closed limits, Jacobian steps bounded by max_step (ppm ratios), disabled knobs bit-identical, temporarily disabled flags active again, twin problems prove a disabled target has no influence, calls accept their documented arguments",
+ "C10": ("model_checking", "6", "Optimizer.tla trace specification: every logged row within the closed limits, Jacobian steps bounded by max_step (ppm ratios), disabled knobs bit-identical, temporarily disabled flags active again, twin problems prove a disabled target has no influence, calls accept their documented arguments",
          "as C09; unit weights exact, other weights 4 ulp / 20 ppm"),
- "C15": ("model_checking", "7", "Optimizer.tla trace specification: reload(i) restores knobs (ulp) and flags and reproduces the row's penalty and targets; every logged row reproducible by the oracle; step(take_best) ends within tolerance or on the minimum-penalty row; the log stays rectangular after failures",
+ "C15": ("model_checking", "6", "Optimizer.tla trace specification: reload(i) restores knobs (ulp) and flags and reproduces the row's penalty and targets; every logged row reproducible by the oracle; step(take_best) ends within tolerance or on the minimum-penalty row; the log stays rectangular after failures",
          "as C09; all rows of all logs produced by the enumerated call sequences, including failing solves and faults in the user's action"),
- "C19": ("model_checking", "5", "Madx.tla: syntax trees of the MAD-X grammar grown production by production, their minimal- and fully-parenthesised token sequences and exact immediate / deferred values; every string parsed and evaluated by the real MadxEval immediately and deferred (item and attribute mode), compared with the spec and with Python on the tree, then pushed through the manager and re-compared after each name changed",
+ "C19": ("model_checking", "7", "Madx.tla: syntax trees of the MAD-X grammar grown production by production, their minimal- and fully-parenthesised token sequences and exact immediate / deferred values; every string parsed and evaluated by the real MadxEval immediately and deferred (item and attribute mode), compared with the spec and with Python on the tree, then pushed through the manager and re-compared after each name changed",
          "3 productions over 5 atoms + 2 over 9 atoms quick (4 productions thorough), 3 environments, several number / operator / spacing spellings; libm functions decided by CPython"),
- "C07": ("model_checking", "6", "TableIndex.tla (index column + lazily built cache) checked with TLC; every generated transition replayed on a real Table, lookups compared with the spec's Resolve",
+ "C07": ("model_checking", "5", "TableIndex.tla (index column + lazily built cache) checked with TLC; every generated transition replayed on a real Table, lookups compared with the spec's Resolve",
          "3-name alphabet, 0..3 rows exhaustive (4 thorough), node identity includes last probed snapshot so lookup/update interleavings stay distinct"),
- "C08": ("model_checking", "6", "RowSel.tla: the selector semantics as pure TLA+ operators; TLC enumerates every (table, selector[, selector]) case with its expected rows and each case is executed on a real Table (rows / rows.rows / indices / mask) under several hash seeds",
+ "C08": ("model_checking", "5", "RowSel.tla: the selector semantics as pure TLA+ operators; TLC enumerates every (table, selector[, selector]) case with its expected rows and each case is executed on a real Table (rows / rows.rows / indices / mask) under several hash seeds",
          "all 364 index columns over 3 names up to length 5 x ~150 selector forms; composition pairs on tables up to length 3 (quick, sampled) / 4 (thorough); regexes are the spellings of the binding table"),
 }
 
